@@ -483,6 +483,15 @@ def check_seq_hier(merge=True, variant='dual_clock'):
     import pyrtl
     if variant == 'dual_clock':
         blif = SEQ_HIER_BLIF
+    elif variant.startswith('local_clock_name'):
+        # names are local to a model: the sub-model calls its clock port `c`; the top model has an unrelated DATA
+        # input `c` that is buffered to an output (instantiation before / after the buffer; latch or Yosys cell)
+        _, order, style = variant.split(':')
+        sub = (".model dreg\n.inputs c d\n.outputs q\n" +
+               (".latch d q re c 0\n" if style == 'latch' else ".subckt $_DFF_P_ C=c D=d Q=q\n") + ".end\n")
+        buf, inst = ".names c cout\n1 1\n", ".subckt dreg c=clk d=n q=q\n"
+        blif = (".model top\n.inputs clk a c\n.outputs q cout\n.names a c n\n10 1\n01 1\n" +
+                (buf + inst if order == 'buffer_first' else inst + buf) + ".end\n\n" + sub)
     else:
         # first model: a majority cell; later model: a registered wrapper instantiating it
         blif = (".model maj\n.inputs x y z\n.outputs o\n.names x y z o\n11- 1\n1-1 1\n-11 1\n.end\n\n"
@@ -505,6 +514,19 @@ def check_seq_hier(merge=True, variant='dual_clock'):
             if got != exp:
                 return dict(failed=True, observed=dict(cycle=t, **got), expected=exp, blif=blif)
             q, r = a, b
+    elif variant.startswith('local_clock_name'):
+        q = 0
+        for t in range(12):
+            a, c = rnd.getrandbits(1), rnd.getrandbits(1)
+            try:
+                sim.step(dict(a=a, c=c))
+            except Exception as e:
+                return dict(failed=True, observed='%s: %s' % (type(e).__name__, str(e)[:100]), expected='steps', blif=blif)
+            exp = dict(q=q, cout=c)
+            got = {k: sim.inspect(k) for k in exp}
+            if got != exp:
+                return dict(failed=True, observed=dict(cycle=t, **got), expected=exp, blif=blif)
+            q = a ^ c
     else:
         for x, y, z in itertools.product([0, 1], repeat=3):
             try:
